@@ -26,7 +26,8 @@ RULE = ('random axially symmetric prescriptions of spheres and planes only (2-9 
         'objectNA; angle / object-height fields, ~4% with the axial field only; positive and negative power; image '
         'surface at or away from the paraxial focus, air or immersed) from the constraint-based generator, plus '
         'every bundled sample made of conic-free spheres and planes; a case is non-trivial when |sum S_I| (oracle) is '
-        'above its float floor and the lens has >= 2 powered surfaces; distinct = distinct case hash')
+        'above its float floor and the lens has >= 2 powered surfaces; ~25% of the cases carry an edit history applied to the '
+        'live lens after the first evaluation; distinct = distinct case hash')
 TIERS = {'quick': dict(shards=16, cases=15), 'thorough': dict(shards=16, cases=600)}
 MIN_NONTRIVIAL = {'quick': 180, 'thorough': 2500}
 _PER = ('TSC', 'CC', 'TAC', 'TPC', 'DC', 'TAchC', 'TchC')
@@ -41,6 +42,7 @@ MIN_EVALS.update({
     'operand-vs-accessor': {'quick': 3000, 'thorough': 40000},
     'stop-shift-invariance': {'quick': 200, 'thorough': 3000},
     'real-ray-limit': {'quick': 60, 'thorough': 1000},
+    'edited-equals-rebuilt': {'quick': 400, 'thorough': 8000},
 })
 ASSUMPTIONS = [
     'the oracle evaluates Welford\'s surface contributions on the library\'s own paraxial marginal/chief rays, radii and '
@@ -52,6 +54,10 @@ ASSUMPTIONS = [
     'magnitudes), widened to 1000x the float64/longdouble difference of the oracle where that is larger; identities between '
     'library outputs 1e-12',
     'operands index surfaces like the accessors\' arrays (X(optic, k) == X()[k]); the statement does not define the operand index base',
+    'history clause: after glass/index/radius/thickness edits of the live Optic (public setters; a glass swap assigns '
+    'material_post / material_pre like Optic.set_index does) the terms are compared with the oracle on the edited lens (same '
+    'clause names, class `after-edit`) and with a freshly built Optic of the edited prescription (`edited-equals-rebuilt`, 1e-9 '
+    'of the largest term of the family)',
     'real-ray clause: image surface moved to the paraxial focus with Optic.image_solve(); decided on the decay of '
     '(y_real - rho*y_paraxial - rho^3*sum TSC)/rho^3 over decades of rho',
 ]
@@ -96,7 +102,70 @@ def gen_case(rng, tier, i):
     spec, info = L.gen_axial(rng, **kw)
     if rng.random() < 0.04:
         spec['fields'] = [[0.0, 0.0, 0.0]]
-    return dict(kind='random', spec=spec, info=info)
+    case = dict(kind='random', spec=spec, info=info)
+    if glass and rng.random() < 0.4:
+        edits = gen_edits(rng, spec)
+        if edits:
+            case['edits'] = edits
+    return case
+
+
+def gen_edits(rng, spec):
+    """An edit history for the LIVE lens (applied after the aberrations were evaluated once): always one edit
+    that changes the dispersion of a catalogue glass, optionally a radius and a thickness edit.
+    k = surface number (1-based, = index in the lens's surface list)."""
+    opt = spec['surfaces'][:-1]
+    # a glass that is followed by a refracting surface: behind a mirror the same medium continues, and replacing
+    # material_post / material_pre of one interface (what Optic.set_index does) would leave an inconsistent lens
+    glassy = [k for k, sf in enumerate(opt, start=1) if isinstance(sf.get('medium'), dict) and 'glass' in sf['medium']
+              and spec['surfaces'][k].get('medium') != 'mirror']
+    if not glassy:
+        return []
+    k = int(glassy[int(rng.integers(len(glassy)))])
+    edits = []
+    if rng.random() < 0.5:
+        edits.append(dict(op='index', k=k, n=round(float(rng.uniform(1.45, 1.9)), 6)))     # Optic.set_index: dn -> 0
+    else:
+        others = [g for g in L.GLASSES if g[0] != opt[k - 1]['medium']['glass']]
+        g = others[int(rng.integers(len(others)))]
+        edits.append(dict(op='glass', k=k, glass=g[0], ref=g[1]))
+    if rng.random() < 0.5:
+        curved = [j for j, sf in enumerate(opt, start=1) if not math.isinf(L.fnum(sf.get('radius', 'inf')))]
+        if curved:
+            j = int(curved[int(rng.integers(len(curved)))])
+            edits.append(dict(op='radius', k=j, R=round(L.fnum(opt[j - 1]['radius']) * float(rng.uniform(1.05, 1.25)), 6)))
+    if rng.random() < 0.5:
+        j = int(rng.integers(1, len(opt) + 1))
+        edits.append(dict(op='thickness', k=j, t=round(float(opt[j - 1]['t']) * float(rng.uniform(0.8, 1.2)), 6)))
+    if rng.random() < 0.5:
+        edits = edits[1:] + edits[:1]               # the glass edit first or last
+    return edits
+
+
+def apply_edits(lens, spec, edits):
+    """Edit the live lens through the public API; returns the equally edited spec (for a fresh build)."""
+    sp = copy.deepcopy(spec)
+    for e in edits:
+        k = int(e['k'])
+        sf = sp['surfaces'][k - 1]
+        if e['op'] == 'index':
+            lens.set_index(float(e['n']), k)
+            sf['medium'] = {'n': float(e['n'])}
+        elif e['op'] == 'glass':
+            sf['medium'] = {'glass': e['glass'], 'ref': e['ref']}
+            mat = L.make_material(sf['medium'])
+            lens.surface_group.surfaces[k].material_post = mat
+            lens.surface_group.surfaces[k + 1].material_pre = mat
+        elif e['op'] == 'radius':
+            lens.set_radius(float(e['R']), k)
+            sf['radius'] = float(e['R'])
+        elif e['op'] == 'thickness':
+            lens.set_thickness(float(e['t']), k)
+            sf['t'] = float(e['t'])
+        else:
+            raise ValueError(e)
+    # the image-space medium of the spec follows the last optical surface
+    return sp
 
 
 # ---------------------------------------------------------------------------
@@ -334,9 +403,45 @@ def check_case(case, rec):
     if not finite:
         real_ray_limit(rec, remake, o, inp, mech_mono, asbuilt)
 
+    # ---- history: edit the SAME Optic, evaluate again ---------------------------------------------
+    if case.get('edits'):
+        after_edit(rec, lens, spec, case['edits'], axial_only, finite)
+
     rec.sample(dict(spec=spec if case['kind'] == 'random' else dict(sample=case['name']),
                     library=dict(TSC=acc['TSC'], TAchC=acc['TAchC'], seidels=acc['S']),
                     welford=dict(TSC=_arr(o['TSC']), TAchC=_arr(o['TAchC']), seidels=_arr(o['S']))))
+
+
+def after_edit(rec, lens, spec, edits, axial_only, finite):
+    """The aberrations of `lens` have been evaluated; now the live lens is edited (glass / index / radius /
+    thickness) and every term is evaluated again on the same Optic: it must be the term of the EDITED lens
+    (oracle on the edited lens's own rays and indices; and the same numbers as a freshly built Optic of the
+    edited prescription)."""
+    sp2 = apply_edits(lens, spec, edits)
+    ops = '+'.join(e['op'] for e in edits)
+    rec.cls('after-edit', *[f"edit-{e['op']}" for e in edits])
+    what = f'after editing the live lens ({ops}) '
+    ab = lens.aberrations
+    third = ab.third_order()
+    T2 = {nm: _arr(v) for nm, v in zip(NAMES, third[:12])}
+    T2['S'] = _arr(third[12])
+    acc2 = {nm: _arr(getattr(ab, nm)()) for nm in _PER}
+    acc2['S'] = _arr(ab.seidels())
+    J2 = Judge(rec, lib_inputs(lens), axial_only, finite)
+    J2.compare_all(acc2, what=what)
+    J2.compare_all(T2, what=what + 'third_order(): ')
+    rec.event('surface_terms_compared_after_edit', 2 * (7 * (len(J2.inp['c']) - 2) + 5))
+    fresh = L.build(sp2)
+    tf = fresh.aberrations.third_order()
+    F = {nm: _arr(v) for nm, v in zip(NAMES, tf[:12])}
+    F['S'] = _arr(tf[12])
+    for src, tag in ((T2, 'third_order()'), (acc2, 'accessor')):
+        for nm in src:
+            m = np.maximum(np.abs(F[nm]), np.abs(src[nm])) if F[nm].shape == src[nm].shape else np.abs(F[nm])
+            top = float(np.max(m)) if m.size and np.any(np.isfinite(m)) else 0.0
+            rec.close('edited-equals-rebuilt', src[nm], F[nm], 1e-9, scale=max(1e-300, top),
+                      msg=f'{nm} ({tag}) evaluated {what}differs from the same call on a freshly built Optic of the '
+                          f'edited prescription (something stale survives the edit)')
 
 
 def real_ray_limit(rec, remake, o, inp, mechs, asbuilt):
